@@ -920,6 +920,9 @@ def empty_sequence_rules(ck, fb):
 STREAM_TESTS = ("good", "fail", "bad", "operator bool", "operator!")
 
 
+ROBUST_EXITS = {"range", "counter", "remaining_bytes", "stream-state", "iterator"}
+
+
 def loop_rules(ck, fb):
     ck.rule("T.exit", "every loop in reader code has at least one robust exit: a counter compared with a loop-invariant bound, an iterator/range walk, a remaining_bytes() test (with input consumed in the body), or a stream test that includes the fail state; a loop whose only input-dependent exit is eof() spins forever once the stream has failed")
     entries = reader_entries(fb)
@@ -932,9 +935,11 @@ def loop_rules(ck, fb):
             n += 1
             kinds = set()
             descr = []
+            robust_blocks = set()
             t = f.term(hdr)
             if t and t["c"] == "CXXForRangeStmt":
                 kinds.add("range")
+                robust_blocks.add(hdr)
             modified = set()
             for b, i, x in f.nodes(("un", "asg", "call")):
                 if b not in body:
@@ -968,23 +973,45 @@ def loop_rules(ck, fb):
                 calls = [x for x in walk(cond) if isinstance(x, dict) and x.get("k") == "call"]
                 names = {c.get("pn", "").split("::")[-1] for c in calls}
                 p = cmp_parts(cond)
+                kind = None
                 if p and any(v["id"] in modified for v in vs):
-                    kinds.add("counter")
+                    kind = "counter"
                 elif "remaining_bytes" in names:
-                    kinds.add("remaining_bytes")
+                    kind = "remaining_bytes"
                 elif names & set(STREAM_TESTS) and any("basic_ios" in c.get("pn", "") or "basic_istream" in c.get("pn", "") for c in calls):
-                    kinds.add("stream-state")
+                    kind = "stream-state"
                 elif "eof" in names:
-                    kinds.add("eof-only")
+                    kind = "eof-only"
                 elif "finished" in names or "valid" in names:
-                    kinds.add("iterator")
+                    kind = "iterator"
                 else:
-                    kinds.add("data")
-            robust = kinds & {"range", "counter", "remaining_bytes", "stream-state", "iterator"}
+                    kind = "data"
+                kinds.add(kind)
+                if kind in ROBUST_EXITS:
+                    robust_blocks.add(b)
+            robust = kinds & ROBUST_EXITS
             where = f.loc(t) if t else f.where
             what = "%s: loop with exits [%s]" % (f.pq.split("::")[-1][:40], "; ".join(descr)[:120])
-            if robust:
-                ck.ok("T.exit", where, what + " has a robust exit (%s)" % ",".join(sorted(robust)))
+            # every cycle through the loop header has to pass a robust exit test (a `continue` that jumps over the only
+            # stream test re-creates the endless loop)
+            bypass = None
+            if robust and hdr not in robust_blocks:
+                seen, work = set(), [hdr]
+                while work and bypass is None:
+                    b = work.pop()
+                    for s2 in f.succ(b):
+                        if s2 is None or s2 not in body or s2 in robust_blocks:
+                            continue
+                        if s2 == hdr:
+                            bypass = b
+                            break
+                        if s2 not in seen:
+                            seen.add(s2)
+                            work.append(s2)
+            if robust and bypass is None:
+                ck.ok("T.exit", where, what + " has a robust exit (%s) on every cycle" % ",".join(sorted(robust)))
+            elif robust:
+                ck.violate("T.exit", where, what + ": a cycle of the loop (back edge from block %s) passes none of its robust exit tests (%s)" % (bypass, ",".join(sorted(robust))), "T.exit:%s:bypass" % f.pq)
             else:
                 ck.violate("T.exit", where, what + " has no robust exit (kinds: %s)" % ",".join(sorted(kinds)) , "T.exit:%s:%s" % (f.pq, ",".join(sorted(kinds))))
     ck.analysed["reader_loops"] = n
